@@ -26,7 +26,7 @@ MANIFEST = {
                   "in the model (assumption: total duration < 2^63 ticks).",
 }
 
-TMP = os.path.join(common.BUILD, "c11-tmp")
+TMP = os.path.join(common.BUILD, "c11-tmp-%d" % os.getpid())
 
 
 def build(ctx):
@@ -110,10 +110,20 @@ def run(ctx):
         if f[0] in ("S", "T"):
             k = f[0] + ":" + f[4].split(":")[0]
             classes[k] = classes.get(k, 0) + 1
+    multi = {}
+    for l in lines:
+        f = l.split("\t")
+        if f[0] in ("R", "F") and f[-1].startswith("ok:") and "," in f[-1]:
+            multi[f[0]] = multi.get(f[0], 0) + 1
+        elif f[0] == "T" and f[-1].startswith("ok:") and "," in f[-1]:
+            multi["T"] = multi.get("T", 0) + 1
+        elif f[0] == "S" and "," in f[-1]:
+            multi["S"] = multi.get("S", 0) + 1
     ctx.cov["evaluations"] += len(lines)
     ctx.cov["distinct_nontrivial"] += distinct
     ctx.notes["correspondence"] = {"cases": len(lines), "mismatches": len(mism), "distinct_cases": distinct,
-                                   "kinds": kinds, "outcome_classes": classes}
+                                   "kinds": kinds, "outcome_classes": classes,
+                                   "cases_with_two_or_more_output_pieces": multi}
     pick = [l for l in lines if l.startswith("S\tg")][:2] + [l for l in lines if l.startswith("S\tm")][:1] + \
            [l for l in lines if l.startswith("T\t")][:2] + [l for l in lines if l[:1] in "RFM"][:3]
     ctx.cov["samples"] += [l[:400] for l in pick]
@@ -177,6 +187,7 @@ def replay(ctx, path):
     os.makedirs(TMP, exist_ok=True)
     exe, drv, bins, model = build(ctx)
     rc, so, e = sh2([exe, "one", "-w", w] + _tool_args(bins), timeout=600)
+    shutil.rmtree(TMP, ignore_errors=True)
     print(so)
     print(e[-3000:])
     return 1 if "FAIL\t" in so else 0
